@@ -20,8 +20,11 @@ import (
 	"io"
 	"net/http"
 	"net/url"
+	"os"
+	"runtime/debug"
 	"sort"
 	"strings"
+	"sync"
 	"time"
 
 	req "github.com/imroc/req/v3"
@@ -59,7 +62,7 @@ type rop struct {
 }
 
 type outcome struct {
-	Kind   string `json:"kind"` // status | err | wrapcancel | ctxcancel | deadline
+	Kind   string `json:"kind"` // status | err | wrapcancel | ctxcancel | deadline (error only) | expired (context past its deadline)
 	Status int    `json:"status,omitempty"`
 }
 
@@ -116,18 +119,19 @@ type callObs struct {
 }
 
 type observation struct {
-	Wires     []wireObs
-	Conds     []callObs
-	Hooks     []callObs
-	Ivals     []callObs
-	Status    int
-	Err       int
-	ErrText   string
-	Attempt   int
-	UpFront   bool
-	RespNil   bool
-	Panicked  string
-	ErrVsResp bool // resp.Err == returned err
+	Wires      []wireObs
+	Conds      []callObs
+	Hooks      []callObs
+	Ivals      []callObs
+	Status     int
+	Err        int
+	ErrText    string
+	Attempt    int
+	UpFront    bool
+	RespNil    bool
+	Panicked   string
+	PanicStack string
+	ErrVsResp  bool // resp.Err == returned err
 }
 
 func errCode(err error) int {
@@ -135,7 +139,7 @@ func errCode(err error) int {
 		return 0
 	}
 	s := err.Error()
-	for _, c := range []int{1, 2, 4} {
+	for _, c := range []int{1, 2, 4, 5} {
 		if strings.Contains(s, fmt.Sprintf("E%d!", c)) {
 			return c
 		}
@@ -206,8 +210,15 @@ func toCookies(l [][2]string) []*http.Cookie {
 
 // execute runs the program on a fresh real client and returns what happened.
 func execute(p *program) (o observation) {
-	ctx, cancel := context.WithCancel(context.Background())
+	ctx := newScriptCtx()
+	cancel := func() { ctx.end(context.Canceled) }
 	defer cancel()
+	var opened []*os.File // *os.File upload sources handed to SetFileReader
+	defer func() {
+		for _, fh := range opened {
+			fh.Close()
+		}
+	}()
 	attempt := -1 // index of the attempt in flight
 	c := req.C()
 	c.GetTransport().WrapRoundTripFunc(func(rt http.RoundTripper) req.HttpRoundTripFunc {
@@ -243,9 +254,12 @@ func execute(p *program) (o observation) {
 				return nil, fmt.Errorf("E2! wrapped: %w", context.Canceled)
 			case "deadline":
 				return nil, fmt.Errorf("E4! wrapped: %w", context.DeadlineExceeded)
+			case "expired": // the request's context passes its deadline during this attempt
+				ctx.end(context.DeadlineExceeded)
+				return nil, fmt.Errorf("E5! wrapped: %w", context.DeadlineExceeded)
 			default: // ctxcancel
 				cancel()
-				return nil, q.Context().Err()
+				return nil, ctx.Err() // context.Canceled (q.Context() may be a derived context that learns of it asynchronously)
 			}
 		}
 	})
@@ -361,9 +375,21 @@ func execute(p *program) (o observation) {
 	case "multipart":
 		r.EnableForceMultipart()
 		for _, f := range sh.MPFiles {
-			if f.Kind == "reader" {
+			switch f.Kind {
+			case "reader":
 				r.SetFileReader(f.Param, f.Name, strings.NewReader(f.Content))
-			} else {
+			case "buffer":
+				r.SetFileReader(f.Param, f.Name, bytes.NewBufferString(f.Content))
+			case "seekcloser":
+				r.SetFileReader(f.Param, f.Name, nopSeekCloser{strings.NewReader(f.Content)})
+			case "path":
+				r.SetFile(f.Param, uploadPath(f))
+			case "osfile":
+				if fh, err := os.Open(uploadPath(f)); err == nil {
+					opened = append(opened, fh)
+					r.SetFileReader(f.Param, f.Name, fh)
+				}
+			default:
 				r.SetFileBytes(f.Param, f.Name, []byte(f.Content))
 			}
 		}
@@ -389,6 +415,7 @@ func execute(p *program) (o observation) {
 		defer func() {
 			if e := recover(); e != nil {
 				o.Panicked = fmt.Sprint(e)
+				o.PanicStack = string(debug.Stack())
 			}
 		}()
 		resp, err = r.Send(sh.Method, u)
@@ -461,6 +488,8 @@ func outcomeView(oc outcome) (st int, ec int, cancelled bool) {
 		return -1, 2, true
 	case "deadline":
 		return -1, 4, false
+	case "expired":
+		return -1, 5, true
 	}
 	return -1, 3, true
 }
@@ -481,7 +510,7 @@ func (p *program) mutatingHook(e effective) bool {
 // canonWire renders an outgoing request canonically (multipart bodies are compared by their
 // parts, since each attempt may legitimately pick a fresh random boundary and Go map order
 // decides the order of form fields).
-func canonWire(w wireObs) string {
+func canonWire(w wireObs, mask map[[2]string]bool) string {
 	var sb strings.Builder
 	fmt.Fprintf(&sb, "%s %s?%s\n", w.Method, w.URL, w.Query)
 	keys := make([]string, 0, len(w.Header))
@@ -493,7 +522,7 @@ func canonWire(w wireObs) string {
 	for _, k := range keys {
 		vs := w.Header[k]
 		if k == "Content-Type" && len(vs) == 1 && strings.HasPrefix(vs[0], "multipart/form-data") {
-			if cb, ok := canonMultipart(vs[0], w.Body); ok {
+			if cb, ok := canonMultipart(vs[0], w.Body, mask); ok {
 				vs, body = []string{"multipart/form-data"}, cb
 			}
 		}
@@ -501,6 +530,37 @@ func canonWire(w wireObs) string {
 	}
 	fmt.Fprintf(&sb, "cookies=%q hasbody=%v clen=%d\n%s", w.Cookies, w.HasBody, w.CLen, body)
 	return sb.String()
+}
+
+// unreplayedUploads: (param, filename) of multipart file sources given as an io.Reader that the
+// request does not rewind between attempts (strings.Reader and bytes.Buffer get wrapped in
+// io.NopCloser, which hides Seek; an *os.File is closed after the first attempt).
+func (p *program) unreplayedUploads() map[[2]string]bool {
+	m := map[[2]string]bool{}
+	if p.Shape.BodyKind != "multipart" {
+		return m
+	}
+	for _, f := range p.Shape.MPFiles {
+		switch f.Kind {
+		case "buffer", "osfile":
+			m[[2]string{f.Param, f.Name}] = true
+		}
+	}
+	return m
+}
+
+// canonWireNoLen: canonWire with the masked file parts left out and without the
+// Content-Length (which changes with them).
+func canonWireNoLen(w wireObs, mask map[[2]string]bool) string {
+	w.CLen = 0
+	h := map[string][]string{}
+	for k, vs := range w.Header {
+		if k != "Content-Length" {
+			h[k] = vs
+		}
+	}
+	w.Header = h
+	return canonWire(w, mask)
 }
 
 type sig struct{ parts []string }
@@ -519,7 +579,7 @@ func shapeSig(p *program) string {
 	if len(p.After) > 0 {
 		t = append(t, "after")
 	}
-	t = append(t, "body="+sh.BodyKind)
+	t = append(t, "body="+bodySig(sh))
 	return strings.Join(t, ",")
 }
 
@@ -593,6 +653,12 @@ func oracle(r *hk.Run, p *program, o *observation) {
 			wantIvals = append(wantIvals, callObs{e.Interval, k + 1, st, ec})
 		}
 	}
+	if n == 1 && want >= 2 && o.Attempt == 1 && len(p.unreplayedUploads()) > 0 && !p.payloadForbidden() {
+		// a multipart file from a reader that cannot be rewound: the request is not refused up
+		// front; the first attempt is sent and the retry is then refused (nothing partial is sent)
+		fail("unreplayable:upload-ends-retries", "multipart upload from a reader that cannot be rewound is not refused up front: the retry is abandoned after the first attempt", map[string]interface{}{"attempts": n, "err": o.ErrText}, "refusal before anything is sent")
+		return
+	}
 	if n != want {
 		fail(fmt.Sprintf("attempts:count:%s", cmpWord(n, want)), "number of attempts differs from: retry iff not cancelled, count not exhausted and the conditions (default: an error occurred) ask for it",
 			n, want)
@@ -618,10 +684,16 @@ func oracle(r *hk.Run, p *program, o *observation) {
 	}
 	// every attempt sends the same request
 	if !p.mutatingHook(e) {
-		first := canonWire(o.Wires[0])
+		first := canonWire(o.Wires[0], nil)
+		mask := p.unreplayedUploads()
 		for k := 1; k < n; k++ {
-			if ck := canonWire(o.Wires[k]); ck != first {
-				fail("identical:"+diffField(o.Wires[0], o.Wires[k]), fmt.Sprintf("attempt %d does not send the same request as attempt 0", k), ck, first)
+			if ck := canonWire(o.Wires[k], nil); ck != first {
+				sg := "identical:" + diffField(o.Wires[0], o.Wires[k])
+				if len(mask) > 0 && canonWireNoLen(o.Wires[k], mask) == canonWireNoLen(o.Wires[0], mask) {
+					// the only difference is in file parts fed from a reader the request cannot rewind
+					sg = "identical:upload-source-not-replayed"
+				}
+				fail(sg, fmt.Sprintf("attempt %d does not send the same request as attempt 0", k), ck, first)
 				break
 			}
 		}
@@ -629,6 +701,21 @@ func oracle(r *hk.Run, p *program, o *observation) {
 	// complete body on the first attempt
 	if wb, ok := p.expectedBody(); ok && o.Wires[0].Body != wb {
 		fail("body:first-attempt", "first attempt does not carry the complete body", o.Wires[0].Body, wb)
+	}
+	// multipart: the first attempt carries every file, complete and in order
+	if p.Shape.BodyKind == "multipart" && !p.payloadForbidden() {
+		var wantParts []filePart
+		for _, f := range p.Shape.MPFiles {
+			wantParts = append(wantParts, filePart{f.Param, f.Name, f.Content})
+		}
+		ct := ""
+		if vs := o.Wires[0].Header["Content-Type"]; len(vs) == 1 {
+			ct = vs[0]
+		}
+		got, ok := fileParts(ct, o.Wires[0].Body)
+		if !ok || fmt.Sprint(got) != fmt.Sprint(wantParts) {
+			fail("body:first-attempt-files", "first attempt does not carry the complete files of the multipart upload", got, wantParts)
+		}
 	}
 	// the response and error returned are those of the last attempt
 	st, ec, _ := outcomeView(p.Script[n-1])
@@ -669,9 +756,14 @@ func diffField(a, b wireObs) string {
 }
 
 // expectedBody: the complete body the caller supplied, for the kinds where it is literal.
+func (p *program) payloadForbidden() bool {
+	sh := &p.Shape
+	return sh.Method == "HEAD" || sh.Method == "OPTIONS" || (sh.Method == "GET" && sh.DenyGetPay)
+}
+
 func (p *program) expectedBody() (string, bool) {
 	sh := &p.Shape
-	if sh.Method == "HEAD" || sh.Method == "OPTIONS" || (sh.Method == "GET" && sh.DenyGetPay) {
+	if p.payloadForbidden() {
 		return "", true
 	}
 	if len(sh.CForm) > 0 || len(sh.RForm) > 0 || sh.BodyKind == "multipart" {
@@ -682,4 +774,33 @@ func (p *program) expectedBody() (string, bool) {
 		return "", true
 	}
 	return sh.Body, true
+}
+
+// scriptCtx: a context the script ends - cancelled or past its deadline - at a chosen attempt.
+type scriptCtx struct {
+	context.Context
+	mu   sync.Mutex
+	err  error
+	done chan struct{}
+}
+
+func newScriptCtx() *scriptCtx {
+	return &scriptCtx{Context: context.Background(), done: make(chan struct{})}
+}
+
+func (c *scriptCtx) Done() <-chan struct{} { return c.done }
+
+func (c *scriptCtx) Err() error {
+	c.mu.Lock()
+	defer c.mu.Unlock()
+	return c.err
+}
+
+func (c *scriptCtx) end(err error) {
+	c.mu.Lock()
+	defer c.mu.Unlock()
+	if c.err == nil {
+		c.err = err
+		close(c.done)
+	}
 }
